@@ -11,7 +11,8 @@ EXTENDS KMTypes, TLC
 CONSTANTS Table            \* "quick" | "thorough": which table a configuration explores
 
 \* ---------------------------------------------------------------- credential shapes
-BadCookieVars == {"expired", "notyet", "iss", "aud", "key", "algnone", "hs256pub", "tamper",
+\* expired_just / notyet_just: a few seconds past expiry / before validity (boundary of the comparison, not an hour away)
+BadCookieVars == {"expired", "expired_just", "notyet", "notyet_just", "iss", "aud", "key", "algnone", "hs256pub", "tamper",
                   "kind_storage", "kind_cli", "kind_code", "kind_access", "garbage"}
 
 QuickFactorSets ==
@@ -27,7 +28,8 @@ CookieCreds(FS) == {Cred("cookie", "good", fs, "alice") : fs \in FS} \cup
 BasicCreds  == {Cred("basic", v, {}, "alice") : v \in {"ok", "badpw", "nouser", "upper"}}
 KmCertCreds == {Cred("kmcert", v, {}, "alice") : v \in {"good", "old23h", "expired", "denied", "adminca",
                                                          "selfsigned", "chain1"}}
-IpCertCreds == {Cred("ipcert", v, {}, "svc") : v \in {"inside", "outside", "inside_notauto", "chain1_inside",
+\* outside_near: a peer outside the (non octet aligned) netblock but inside the octet aligned block around it
+IpCertCreds == {Cred("ipcert", v, {}, "svc") : v \in {"inside", "outside", "outside_near", "inside_notauto", "chain1_inside",
                                                        "chain1_outside"}}
 Creds(FS) == {NoCred} \cup CookieCreds(FS) \cup BasicCreds \cup KmCertCreds \cup IpCertCreds
 
@@ -90,8 +92,9 @@ SweepCfgs == {{}, {"password"}, {"TOTP"}, {"U2F"}, {"password", "U2F"}, {"Symant
 SweepCreds == {NoCred, Cred("basic", "ok", {}, "alice"), Cred("cookie", "good", {"pw"}, "alice"),
                Cred("cookie", "good", {"pw", "totp"}, "alice"), Cred("cookie", "good", {"pw", "u2f"}, "alice"),
                Cred("cookie", "expired", {"pw", "u2f"}, "alice"), Cred("cookie", "key", {"pw", "u2f"}, "alice"),
+               Cred("cookie", "expired_just", {"pw", "u2f"}, "alice"),
                Cred("kmcert", "good", {}, "alice"), Cred("ipcert", "inside", {}, "svc"),
-               Cred("ipcert", "outside", {}, "svc")}
+               Cred("ipcert", "outside", {}, "svc"), Cred("ipcert", "outside_near", {}, "svc")}
 InSweep(r) == \E cfg \in SweepCfgs, c \in SweepCreds, m \in {"POST", "GET", "PUT"},
                  ct \in CertTypes \cup {"bogus"}, t \in {"alice", "bob", "Alice", "svc"},
                  s \in BOOLEAN, o \in {"none", "same", "cross"} :
